@@ -301,7 +301,35 @@ class Job:
 
 
 def explore(job: Job, timeout_ms=10000, max_paths=50000):
-    """Run the job over every feasible path. -> result dict."""
+    """Run the job over every feasible path. -> result dict.
+    If a loop header of the code is a zip(...) of chain slices, the index the loop invariant refers to is ambiguous by one
+    element; the job is then tried with the invariant index shifted by 0, +1, -1 and the first attempt in which every
+    obligation is discharged stands (any shift for which initiation, preservation and use are proved is a valid
+    inductive invariant).  If none succeeds the unshifted result is reported."""
+    from . import loops
+    loops.INDEX_OFFSET[0] = 0
+    loops.AMBIGUOUS_USED[0] = False
+    first = _explore(job, timeout_ms, max_paths)
+    if not loops.AMBIGUOUS_USED[0]:
+        return first
+
+    def clean(r):
+        return not r.get("engine_error") and all(cl["status"] == "discharged" for cl in r["clauses"]) and not r.get("missing_covers")
+    if clean(first):
+        return first
+    try:
+        for off in (1, -1):
+            loops.INDEX_OFFSET[0] = off
+            r = _explore(job, timeout_ms, max_paths)
+            if clean(r):
+                r["note_index_offset"] = off
+                return r
+    finally:
+        loops.INDEX_OFFSET[0] = 0
+    return first
+
+
+def _explore(job: Job, timeout_ms=10000, max_paths=50000):
     t0 = time.time()
     work = [[]]
     paths = 0
